@@ -8,7 +8,8 @@ from mc.ref import leaf as rleaf
 PID = 'C04'
 LEVEL = 'exploration'
 RULE = ('alphabet A={a,A,b,1,-,_,e-acute,E-acute}; X in A^<=n as a literal '
-        'and through the placeholder forms %(k)s, p%(k)s, %(k)s%(j)s with '
+        'and through the placeholder forms %(k)s, a%(k)s, %(k)sB, E-acute%(k)s, '
+        '-%(k)s, %(k)s%(j)s with '
         'target values from A^<=2 or the key missing; role lists = every list '
         'of <=m names from A^<=2, plus no roles entry and an empty list; every '
         'combination enumerated; the check is decided alone and inside '
@@ -49,7 +50,9 @@ def plan(tier, seed):
         jobs.append({'space': 'literal', 'lo': lo, 'hi': hi, 'tier': tier,
                      'weight': (hi - lo) * 5})
     tv = words(2)
-    for form in ('%(k)s', 'p%(k)s', 'P%(k)s-'):
+    # literal text before / after the placeholder is taken from the alphabet,
+    # so that the filled-in name can actually be one of the enumerated roles
+    for form in ('%(k)s', 'a%(k)s', '%(k)sB', 'É%(k)s', '-%(k)s'):
         for lo, hi in core.chunks(len(tv) + 1, 16):
             jobs.append({'space': 'placeholder', 'form': form, 'lo': lo,
                          'hi': hi, 'tier': tier, 'weight': (hi - lo) * 5})
